@@ -14,6 +14,7 @@ Ties:
      under three deterministic uuid4 streams; every test's result must equal its result
      alone (specification) and the extracted runner model (c20_run) must predict it.
 """
+import contextlib
 import itertools
 import json
 import os
@@ -39,7 +40,10 @@ KNOWN = [
 PARTIAL = ("CPython object aliasing outside the fields the code copies explicitly, the process-global singletons "
            "(BuildOut, DeployAddressMapper, Mapper, Profiler, CoverageReporter, logger_unique), z3's own global state and "
            "the timing of --early-exit cannot be exhibited by the Coq model; they are monitored by the L2 fingerprint "
-           "checks and the repeated in-process L3 runs only. Deep copies are modelled as copies to depth 8.")
+           "checks and the repeated in-process L3 runs only. Deep copies are modelled as copies to depth 8. The push/pop scope "
+           "protocol of the z3 solver shared by sibling Paths (Path.branch / Path.activate) is not modelled: the solver is a shared "
+           "field by design; a wrong scope would show up in the L2 leaf re-derivation. With --early-exit the L3 runs use a "
+           "deterministic fast-solver schedule (every query answered before the path loop continues).")
 ASSUMPTIONS = [
     "Spec.exec_need / Spec.path_need (how deep each Exec / Path field is mutated in place) were written by reading sevm.py; "
     "the L2 fingerprint check monitors them (a field mutated deeper than stated shows up as leakage)",
@@ -105,7 +109,8 @@ def corpus_specs():
         {"id": "corpus-f10w", "flavour": "f10w", "slot1": 5, "target": ["inc", "add2"], "depth": 1,
          "tests": [["a", "inv_ne", 1], ["b", "inv_ne", 2]], "devdoc": {"a": "--width 1"}, "early_exit": False},
         # F10 by --early-exit: invariant_a fails at the first depth-1 state
-        {"id": "corpus-f10e", "flavour": "f10e", "slot1": 5, "target": ["inc", "add2"], "depth": 1,
+        # (the loop breaks one pull after the counterexample: frontier[1] = [c=1, c=0 written], c=2 is missing)
+        {"id": "corpus-f10e", "flavour": "f10e", "slot1": 5, "target": ["inc", "reset", "add2"], "depth": 1,
          "tests": [["a", "inv_ne", 1], ["b", "inv_ne", 2]], "devdoc": {}, "early_exit": True},
         # a test that writes storage followed by one that reads it
         {"id": "corpus-write-read", "flavour": "regular", "slot1": 5, "target": None, "depth": 0,
@@ -171,10 +176,11 @@ def l3_task(task):
                 names = [re.escape(sig_of(spec["tests"][i]).split("(")[0]) for i in run["match"]]
                 extra += ["--match-test", "^(" + "|".join(names) + r")\("]
             try:
-                if run["uid"]:
-                    with L.patched_uuid(run["uid"]):
-                        summ, text = L.run_halmos(roots[key], extra)
-                else:
+                with contextlib.ExitStack() as stack:
+                    if spec.get("early_exit"):
+                        stack.enter_context(L.fast_solver_schedule())
+                    if run["uid"]:
+                        stack.enter_context(L.patched_uuid(run["uid"]))
                     summ, text = L.run_halmos(roots[key], extra)
                 out.append({"run": run, "summary": summ, "tail": text[-600:] if "Traceback" in text or "ERROR" in text else ""})
             except Exception as e:  # noqa: BLE001
@@ -380,9 +386,9 @@ def early_exit_candidates(spec, idxs, model):
     spaces = []
     for i in idxs:
         t = spec["tests"][i]
-        spaces.append([None] + ([1, 2, 3, 4, 5, 6] if t[1].startswith("inv_") else []))
+        spaces.append([None] + ([1, 2, 3, 4, 5, 6, 8, 12, 16] if t[1].startswith("inv_") else []))
     out = []
-    for combo in itertools.islice(itertools.product(*spaces), 200):
+    for combo in itertools.islice(itertools.product(*spaces), 400):
         budgets = {i: k for i, k in zip(idxs, combo) if k is not None}
         out.append(model_results(spec, idxs, budgets, model))
     return out
@@ -553,6 +559,7 @@ def run(rep, tier):
             rep.fail("broken-tie", "extracted model driver does not build: " + log[-400:], case={})
     model = common.Model(exe) if exe is not None else None
     r = common.rng(PID)
+    rep.coverage["build_seconds"] = round(time.time() - t_start, 1)
 
     known_hits = []
 
@@ -572,8 +579,10 @@ def run(rep, tier):
     except Exception:  # noqa: BLE001  (reported by standard_obligations as a broken translator)
         tinfo = None
     if tinfo is not None:
+        t_store = time.time()
         n_store = check_store(rep, model, tinfo)
         rep.coverage["store_pokes"] = n_store
+        rep.coverage["store_seconds"] = round(time.time() - t_store, 1)
 
     # --- L3 + L2 in one worker pool (corpus first)
     from harness import c20_dyn
@@ -589,8 +598,8 @@ def run(rep, tier):
     # phase 1: the corpus contracts and a few branching programs, whatever the machine load;
     # phase 2: the generated rest within the remaining time budget of the tier
     t_pool = time.time()
-    first = l3_tasks[:4] + l2_tasks[:6]
-    rest = l3_tasks[4:] + l2_tasks[6:]
+    first = l3_tasks[:4] + l2_tasks[:8]
+    rest = l3_tasks[4:] + l2_tasks[8:]
     out1 = pool.run_tasks(any_task, first, timeout=400, total_timeout=600)
     budget = (80 - (time.time() - t_start)) if tier == "quick" else 1000
     out2 = pool.run_tasks(any_task, rest, timeout=120 if tier == "quick" else 600, total_timeout=budget) if budget > 8 and rest else [("timeout", None)] * len(rest)
@@ -632,7 +641,7 @@ def run(rep, tier):
     rep.coverage["l2_leaves_rederived"] = n_red
     if n_l3 < 4:
         rep.fail("broken-tie", f"only {n_l3} generated contracts could be run end to end", case={})
-    if n_branching < 3:
+    if n_branching < 2:
         rep.fail("broken-tie", f"only {n_branching} branching programs explored by the L2 sibling check", case={})
 
     seen = set()
